@@ -1,5 +1,5 @@
 //@PROBE file=src/track/store.rs test=verif_probe_store_c09 clauses=C09/ units=store_future_merge,store_c09
-//@BOUND shard counts 1..=5; repeated owned merges of a kept source append its history every time; lookups and usable scans over tracks that are ready / pending / wasted / whose status computation fails; a rejected duplicate leaves the stored track as it was; ids 0..=5 and wide ids (2^32+1, 2*2^32+2, 7*2^40+3, 0x9e3779b97f4a7c15, u64::MAX-1, u64::MAX); merges over {dest missing, src missing, same id, attribute-merge failure, optimize failure, success} x {remove_src yes/no}; the failure cases also for a source without any observation class and for class lists None / empty / [0]; add() on a missing id vs builder
+//@BOUND shard counts 1..=5; merges over two classes where the optimisation fails for the first or the second; owned merges with a recording notifier (nothing on failure, exactly the destination on success); repeated owned merges of a kept source append its history every time; lookups and usable scans over tracks that are ready / pending / wasted / whose status computation fails; a rejected duplicate leaves the stored track as it was; ids 0..=5 and wide ids (2^32+1, 2*2^32+2, 7*2^40+3, 0x9e3779b97f4a7c15, u64::MAX-1, u64::MAX); merges over {dest missing, src missing, same id, attribute-merge failure, optimize failure, success} x {remove_src yes/no}; the failure cases also for a source without any observation class and for class lists None / empty / [0]; add() on a missing id vs builder
 #[cfg(test)]
 mod verif_probe_store_c09 {
     use super::*;
@@ -129,6 +129,17 @@ mod verif_probe_store_c09 {
                     s.fetch_tracks(&[55]);
                 }
             }
+            // ---- a merge over several feature classes fails when the optimisation step fails for ANY of them, whichever comes first
+            for order in [&[1u64, 2][..], &[2, 1][..]] { for bad_class in [1u64, 2] {
+                let d = s.new_track(70).observation((1, Some(1.0), None, Some(PUpd))).observation((2, Some(2.0), None, Some(PUpd))).build().unwrap();
+                s.add_track(d).unwrap();
+                let mut src = s.new_track(71).observation((1, Some(3.0), None, Some(PUpd))).observation((2, Some(4.0), None, Some(PUpd))).build().unwrap();
+                src.observations.get_mut(&bad_class).unwrap()[0].0 = Some(-666.0);
+                let before = peek(&s, 70);
+                if s.merge_external(70, &src, Some(order), true).is_ok() { failures.push(format!("{}: merge_external over classes {:?} whose optimisation fails for class {} reports Ok", ctx, order, bad_class)); }
+                if peek(&s, 70) != before { failures.push(format!("{}: failed merge over classes {:?} (optimisation fails for class {}) changed the destination", ctx, order, bad_class)); }
+                s.fetch_tracks(&[70]);
+            } }
             // ---- merge_owned
             if s.merge_owned(0, 99, None, true, true).is_ok() { failures.push(format!("{}: merge_owned with a missing source reports Ok", ctx)); }
             let (b0, b2) = (peek(&s, 0), peek(&s, 2));
@@ -179,6 +190,29 @@ mod verif_probe_store_c09 {
                 match sh.merge_owned(20, 21, Some(&[2]), true, true) {
                     Ok(_) => { let h = peek(&sh, 20).map(|v| v.4); if h != Some(vec![20, 21]) { failures.push(format!("{}: merge_owned(classes [2] held by the destination only, history on) left the merge history {:?}, expected [20, 21]", ctx, h)); } }
                     Err(e) => failures.push(format!("{}: merge_owned with a destination-only class failed: {}", ctx, e)),
+                }
+            }
+            // ---- an owned merge in the store notifies like the merge it performs: nothing when it fails (the source is put back silently),
+            // exactly once - the destination - when it succeeds, whether the source is kept or removed
+            {
+                #[derive(Clone)]
+                struct Rec(std::sync::Arc<std::sync::Mutex<Vec<u64>>>);
+                impl crate::track::notify::ChangeNotifier for Rec { fn send(&mut self, id: u64) { self.0.lock().unwrap().push(id); } }
+                let log = std::sync::Arc::new(std::sync::Mutex::new(vec![]));
+                let mut sn: TrackStore<PAttrs, PMetric, f32, Rec> = TrackStore::new(PMetric::default(), PAttrs::default(), Rec(log.clone()), shards);
+                for (id, v, bad) in [(40u64, 1.0f32, false), (41, 2.0, false), (42, 3.0, true), (43, -666.0, false), (44, 4.0, false)] {
+                    let mut t = sn.new_track(id).observation((0, Some(v.abs()), None, Some(PUpd))).build().unwrap();
+                    if v < 0.0 { t.observations.get_mut(&0).unwrap()[0].0 = Some(v); } // an observation the optimisation step of a later merge rejects
+                    t.attributes.fail_merge = bad;
+                    sn.add_track(t).unwrap();
+                }
+                for (src, remove, ok, what) in [(42u64, false, false, "failing attribute merge"), (42, true, false, "failing attribute merge"), (43, true, false, "failing optimize"), (99, true, false, "missing source"), (41, false, true, "success, source kept"), (44, true, true, "success, source removed")] {
+                    let n0 = log.lock().unwrap().len();
+                    let r = sn.merge_owned(40, src, None, remove, true);
+                    let sent: Vec<u64> = log.lock().unwrap()[n0..].to_vec();
+                    if r.is_ok() != ok { failures.push(format!("{}: merge_owned({} into 40: {}) returned ok={}", ctx, src, what, r.is_ok())); continue; }
+                    let want: Vec<u64> = if ok { vec![40] } else { vec![] };
+                    if sent != want { failures.push(format!("{}: merge_owned({} into 40, remove={}: {}) emitted the change notifications {:?}, expected {:?}", ctx, src, remove, what, sent, want)); }
                 }
             }
             // ---- every merge future reports ITS OWN merge (futures outstanding at the same time, read in the other order; a dropped future)
